@@ -288,6 +288,7 @@ func main() {
 	out := flag.String("out", "", "output directory (overlay files + overlay.json)")
 	pkgs := flag.String("pkgs", "", "comma separated package dirs (relative to repo) to instrument fully")
 	mapr := flag.String("maprange", "", "file=expr1,expr2;file2=expr  map range expressions to put under vmap")
+	add := flag.String("add", "", "pkgdir=file[,pkgdir=file]: extra source files added (virtually) to repository packages")
 	flag.Parse()
 	if *out == "" {
 		fmt.Fprintln(os.Stderr, "missing -out")
@@ -417,6 +418,23 @@ func main() {
 		for k, v := range r.counts {
 			total[k] += v
 		}
+	}
+	for _, part := range strings.Split(*add, ",") {
+		if part == "" {
+			continue
+		}
+		kv := strings.SplitN(part, "=", 2)
+		abs, err := filepath.Abs(kv[1])
+		if err != nil {
+			fmt.Fprintln(os.Stderr, err)
+			os.Exit(2)
+		}
+		if _, err := os.Stat(abs); err != nil {
+			fmt.Fprintln(os.Stderr, err)
+			os.Exit(2)
+		}
+		name := "zz_verif_" + strings.TrimSuffix(filepath.Base(abs), ".txt")
+		overlay[filepath.Join(*repo, kv[0], name)] = abs
 	}
 	b, _ := json.MarshalIndent(map[string]interface{}{"Replace": overlay}, "", " ")
 	os.WriteFile(filepath.Join(*out, "overlay.json"), b, 0o644)
